@@ -824,11 +824,15 @@ def model_trace_cmp(steps, mtrace, mapping):
     if mtrace is None or mtrace.startswith("#"):
         return "model trace unavailable: %s" % mtrace
     ms = mtrace.split(";")
+    fibmap = {}
     for i, (s, m) in enumerate(zip(steps, ms)):
         f = m.split(" ")
         if len(f) < 6:
             return "step %d: model stopped (%s)" % (i, m)
-        mine = (int(f[0]), int(f[1]), int(f[2]), int(f[3]), int(f[4]), int(f[5]), [int(x) for x in f[6].split(",")] if len(f) > 6 and f[6] else [])
+        # model fiber ids are creation order; the harness numbers fiber ADDRESSES in first-seen order and the address of a
+        # finished, collected fiber may be reused: require a consistent map model id -> reported id
+        mf = fibmap.setdefault(int(f[0]), s["fiber"])
+        mine = (mf, int(f[1]), int(f[2]), int(f[3]), int(f[4]), int(f[5]), [int(x) for x in f[6].split(",")] if len(f) > 6 and f[6] else [])
         real = (s["fiber"], mapping.get(s["fn"], -1), s["pc"], s["len"], s["base"], s["frames"], s["u"])
         if mine != real:
             return "step %d: real (fiber,fn,pc,len,base,frames,open)=%s model %s" % (i, real, mine)
@@ -849,16 +853,72 @@ def impl_outcome(rec):
     return "|".join(norm_out(rec.output)) + "#" + st
 
 
-def classify(vals):
-    """vals = sl_classify fields; returns dict"""
-    ev, cur, fb, fu, fbu, nt, acc = vals.split("@")
-    return dict(spec=ev, model=cur, model_break_fixed=fb, model_unwind_fixed=fu, model_both_fixed=fbu,
-                nontrivial=(nt == "T"), closed_accesses=int(acc))
+# fixed programs OUTSIDE the mini-language (methods, while, late-bound globals, catch variables, return inside try);
+# expected output known by construction; (name, source, expected lines, known class when the implementation deviates)
+PROBES = [
+    ("return_in_try_finally",
+     "var G = nil; fn f() { try { var x = 5; G = || x; return 1; } finally { var y = 99; print(y); } } print(f()); print(G());",
+     ["99", "1", "5"], "return_in_try_leaves_open_upvalue"),
+    ("method_parameter",
+     "#[constructor(new)] class A { fn mk(self, p) { return || { p = p + 1; return p; }; } } var a = A.new(); var c = a.mk(5); "
+     "var d = a.mk(50); print(c()); print(c()); print(d());", ["6", "7", "51"], None),
+    ("while_body_variable",
+     "var fs = []; var i = 0; while i < 3 { var j = i * 10; fs.push(|| { j = j + 1; return j; }); i = i + 1; } "
+     "print(fs[0]()); print(fs[2]()); print(fs[0]());", ["1", "21", "2"], None),
+    ("self_captured",
+     "#[constructor(new)] class B { fn get(self) { return || self.v; } } var b = B.new(); b.v = 7; var g = b.get(); b.v = 8; print(g());",
+     ["8"], None),
+    ("global_looked_up_at_use", "fn f() { return g; } var g = 3; print(f()); g = 4; print(f());", ["3", "4"], None),
+    ("while_break_captured",
+     "fn w() { var q = 3; var h = nil; while true { var r = 9; h = || r; break; } var s = 5; print(s); print(q); print(h()); } w();",
+     ["5", "3", "9"], None),
+    ("catch_variable_captured",
+     "var G = nil; { try { throw 5; } catch e { G = || { e = e + 1; return e; }; } var z = 100; print(G()); print(G()); print(z); }",
+     ["6", "7", "100"], None),
+    ("while_continue_captured",
+     "fn w() { var fs = []; var i = 0; while i < 4 { i = i + 1; var r = i; fs.push(|| r); if i == 2 { continue; } var t = 50; } "
+     "var s = 5; print(s); print(fs[1]()); print(fs[3]()); } w();", ["5", "2", "4"], None),
+    ("throw_inside_frame_caught_inside",
+     "var G = nil; fn f() { var a = 1; try { var x = 5; G = || { x = x + 1; return x; }; throw 2; } catch e { print(e); } "
+     "var b = 7; print(b); return a; } print(f()); print(G());", ["2", "7", "1", "6"], None),
+]
+
+
+def run_probes(ctx, stats):
+    fast = ctx.harness("release")
+    binary = ctx.harness("debug")
+    recs = yvlib.run_harness(fast, ["run - " + hx(src) for _, src, _, _ in PROBES], case_timeout_ms=10000)
+    trecs = yvlib.run_harness(binary, ["utrace - 20000 " + hx(src) for _, src, _, _ in PROBES], case_timeout_ms=20000)
+    terms, keep = [], []
+    for (name, src, expect, kc), r, t in zip(PROBES, recs, trecs):
+        got = norm_out(r.output)
+        if got != expect or r.result[0] != "ok":
+            ctx.violation("probe %s: printed output differs from the expected one" % name, input=src, expected=expect,
+                          actual=got + ([str(r.result)] if r.result[0] != "ok" else []), known_class=kc)
+            if kc:
+                stats["known"][kc] = stats["known"].get(kc, 0) + 1
+        steps = parse_trace(t)
+        if steps:
+            groups, info = trace_groups(steps, parse_functions(t))
+            stats["trace_steps"] += len(steps)
+            if info["unwind_over_open"] and not kc:
+                ctx.violation("probe %s: the stack was truncated below an open upvalue" % name, input=src,
+                              expected="every open upvalue below the stack top", actual=str(info["unwind_over_open"]))
+            elif info["lists_bad"] and not info["unwind_over_open"]:
+                ctx.violation("probe %s: a reported open-upvalue list violates upvalue_list_inv" % name, input=src,
+                              expected="strictly descending, below the stack top", actual=str(info["lists_bad"]), known_class=kc)
+            terms.append("up_replay %s" % groups_wire(groups))
+            keep.append(name)
+    vals = yvlib.coq_eval(["YV:ScopeRun"], terms, shard_size=4, tag="C06probes")
+    for name, v in zip(keep, vals):
+        if v is None or not v.startswith("ok"):
+            ctx.corr_broken.append("trace replay through Upvalues.v on probe %s: %s" % (name, v))
+    return len(PROBES)
 
 
 def known_class_of(c, p):
     """which repair makes the model meet the Spec (ablation) - together with the syntactic class predicate"""
-    if c["model"] == c["spec"]:
+    if c["model"] == c["spec"] or "model_break_fixed" not in c:
         return None
     if c["model_break_fixed"] == c["spec"] and syntactic_break_with_locals(p):
         return "break_dead_pops"
@@ -874,22 +934,24 @@ def evaluate(ctx, progs, tag, trace_n=0, want_code=True):
     binary = ctx.harness("debug")       # traces: debug assertions on
     fast = ctx.harness("release")       # bulk runs
     ws = [wire(p) for p in progs]
-    terms = []
-    for w in ws:
-        terms.append("sl_render %s" % w)
-        terms.append("sl_classify %s" % w)
-        terms.append("sl_compile %s" % w)
-    vals = yvlib.coq_eval(["YV:ScopeRun"], terms, shard_size=max(12, (len(terms) + 15) // 16), tag="C06" + tag)
+    terms = ["sl_bundle %s" % w for w in ws]
+    vals = yvlib.coq_eval(["YV:ScopeRun"], terms, shard_size=max(8, (len(terms) + 15) // 16), tag="C06" + tag)
     res = []
     for i, p in enumerate(progs):
-        src, cl, code = vals[3 * i], vals[3 * i + 1], vals[3 * i + 2]
-        if src is None or cl is None or code is None or src.startswith("#"):
-            ctx.broken.append("model evaluation failed for a program (coq_eval): %s" % ws[i][:200])
+        v = vals[i]
+        if v is None or v.startswith("#") or v.count("@") < 5:
+            ctx.broken.append("model evaluation failed for a program (coq_eval): %s -> %s" % (ws[i][:200], v))
             res.append(None)
             continue
-        d = classify(cl)
-        d.update(src=src, code=code, prog=p)
-        res.append(d)
+        src, ev, cur, nt, acc, code = v.split("@", 5)
+        res.append(dict(src=src, spec=ev, model=cur, nontrivial=(nt == "T"), closed_accesses=int(acc), code=code, prog=p))
+    # ablation only where the model differs from the Spec
+    dev = [d for d in res if d is not None and d["model"] != d["spec"] and "#stuck" not in d["spec"]]
+    if dev:
+        av = yvlib.coq_eval(["YV:ScopeRun"], ["sl_ablate %s" % wire(d["prog"]) for d in dev], shard_size=8, tag="C06" + tag + "ab")
+        for d, a in zip(dev, av):
+            if a is not None and a.count("@") == 2:
+                d["model_break_fixed"], d["model_unwind_fixed"], d["model_both_fixed"] = a.split("@")
     live = [d for d in res if d is not None]
     recs = yvlib.run_harness(fast, ["run - " + hx(d["src"]) for d in live], case_timeout_ms=10000)
     crecs = yvlib.run_harness(fast, ["compile " + hx(d["src"]) for d in live], case_timeout_ms=10000) if want_code else [None] * len(live)
@@ -1069,9 +1131,9 @@ def run(ctx):
             judge(ctx, res[0], stats)
         ctx.cov.update({"evaluations": 1, "distinct_nontrivial": len(stats["nontrivial"]), "rule": "replay", "samples": [res[0]["src"] if res[0] else ""]})
         return
-    nprog = 420 if quick else 4200
-    ntrace = 150 if quick else 1200
-    nmeta = 60 if quick else 600
+    nprog = 300 if quick else 3000
+    ntrace = 100 if quick else 900
+    nmeta = 40 if quick else 400
     g = G(rng)
     progs, tags = [], []
     for _ in range(nprog):
@@ -1113,6 +1175,7 @@ def run(ctx):
             ctx.broken.append("eval_cells is not invariant under wrapping the top level in a %s: %s" % (k, b["src"][:300]))
         else:
             nmeta_ok += 1
+    nprobes = run_probes(ctx, stats)
     t0 = time.time()
     nscripts = script_traces(ctx, stats)
     log("[C06] repository scripts traced in %.1fs" % (time.time() - t0))
@@ -1139,7 +1202,8 @@ def run(ctx):
     ctx.violations[:] = kkeep + other[:5]
     ctx.corr_broken[:] = ctx.corr_broken[:8]
     ctx.cov.update({
-        "evaluations": stats["evaluated"] + nscripts,
+        "evaluations": stats["evaluated"] + nscripts + nprobes,
+        "probes_outside_the_mini_language": [n for n, _, _, _ in PROBES],
         "distinct_nontrivial": len(stats["nontrivial"]),
         "rule": "generated programs of the mini-language (templates: %s; each placed bare / in a block / in a function called once / in a loop / "
                 "in a fiber, 1-3 per program) plus their metamorphic wrappings; non-trivial = during the run a captured variable whose scope has "
